@@ -477,4 +477,19 @@ def stack_cases(seed: int, n: int) -> list[dict]:
             g += 'WHITESPACE = _{ " " }\n'
         cases.append({"family": "STACK", "label": "nested backtracking over stack operations",
                       "grammar": g, "rules": ["start"], "alphabet": "abc!", "maxlen": 4, "starts": "zero"})
+    # implicit rules with side effects on the stack: whatever trivia does must be undone when the trivia is given
+    # back (after the last iteration of a repetition, in a failed alternative, inside a predicate)
+    triv = ['WHITESPACE = { PUSH(" ") }', 'WHITESPACE = _{ " " ~ PUSH_LITERAL("c") }', 'WHITESPACE = { " " ~ DROP }',
+            'WHITESPACE = _{ " " }\nCOMMENT = { PUSH("#") }', 'COMMENT = _{ "#" ~ PUSH_LITERAL("a") }',
+            'WHITESPACE = _{ " " }\nCOMMENT = ${ "#" ~ POP }']
+    shapes = ['"a"* ~ {t}', '("a" ~ "b")* ~ {t}', '("a"+ ~ "!")? ~ {t}', '("a" ~ "a" | "a") ~ {t}', '"a"{{1,3}} ~ {t}',
+              '&("a" ~ "a") ~ "a"* ~ {t}', '!("a" ~ "b") ~ "a"{{2,}} ~ {t}', '("a" | "b")+ ~ {t}']
+    tails = ['tail', '"b" ~ tail', 'PEEK_ALL ~ EOI', 'tail?  ~ "b"*']
+    for _ in range(max(8, n // 6)):
+        w = rng.choice(triv)
+        sh = rng.choice(shapes).format(t=rng.choice(tails))
+        pre = rng.choice(["", 'PUSH_LITERAL("a") ~ ', 'PUSH_LITERAL("c") ~ PUSH_LITERAL("a") ~ '])
+        g = (f"start = {{ {pre}{sh} }}\n" + 'tail = @{ "b"? ~ PEEK_ALL ~ EOI }\n' + w + "\n")
+        cases.append({"family": "STACK", "label": "implicit rules with stack side effects around backtracking",
+                      "grammar": g, "rules": ["start"], "alphabet": "ab #c", "maxlen": 4, "starts": "zero"})
     return cases
